@@ -932,9 +932,24 @@ def sub_instances(ctx, prop):
         sub = _Ctx(prop, ctx.prog, ctx.root, "quick")
         # the borrowed rules are the lending property's own (base) rules; its borrowed ones are not re-borrowed,
         # which also keeps two properties that lend to each other from recursing
-        getattr(mod, "_run_base", mod.run)(sub)
+        run_lender(mod, sub, ctx)
         _SUB[key] = sub.instances
+        _BROKEN[key] = getattr(sub, "lender_broken", None)
     return _SUB[key]
+
+
+_BROKEN = {}
+
+
+def run_lender(mod, sub, ctx):
+    """Run the lending property's own rules in a sub-context.  If they cannot be evaluated on this tree that is the
+    lender's own exit 2, not the borrower's: the borrower keeps what was evaluated and notes the rest."""
+    from ovsa.facts import AnalysisBroken as _AB
+    try:
+        getattr(mod, "_run_base", mod.run)(sub)
+    except _AB as e:
+        sub.lender_broken = str(e)
+        ctx.note("rules borrowed from %s could not all be evaluated: %s" % (sub.prop, e))
 
 
 def share(ctx, rule, prop, pred, prefix, because, minimum):
@@ -948,6 +963,8 @@ def share(ctx, rule, prop, pred, prefix, because, minimum):
             ctx.ok(rule, prefix + i_["inst"], i_["where"])
         else:
             ctx.fail(rule, prefix + i_["inst"], i_["where"], i_["what"] + " (" + because + ")")
+    if n < minimum and _BROKEN.get((prop, ctx.root)):
+        return n            # the lender reports its own analysis break
     ctx.need(n >= minimum, "%s: only %d shared instances of %s" % (rule, n, prop))
     return n
 
